@@ -305,6 +305,12 @@ class State:
                 return to_bool(a.nil)
             if a.nil is True:
                 return to_bool(b.nil)
+            try:
+                ea, eb = self.ir.types[self.ir.under(a.t)].get("elem"), self.ir.types[self.ir.under(b.t)].get("elem")
+                if ea and eb and ea != eb:
+                    return z3.BoolVal(False)      # channels of different element types are different channels
+            except Exception:
+                pass
             return a.ref == b.ref
         if isinstance(a, TupleV) and isinstance(b, TupleV):
             return z3.And(*[to_bool(self.eq(x, y)) for x, y in zip(a.items, b.items)])
